@@ -116,7 +116,7 @@ def rnd_csel(r, maxlen):
 
 def opts_for(r, op):
     from .props import PRES
-    o = {"via": r.choice(RVIAS), "pre": r.choice(PRES + [None, None])}
+    o = {"via": r.choice(RVIAS), "pre": r.choice(PRES + [None, None]), "hi": r.choice([0, 48, 48, 16])}
     if op in ("getitem", "setitem"):
         o["spelling"] = r.choice(["plain", "plain", "tuple", "empty", "numpy", "numpy32", "pylist"])
     if op == "setitem":
@@ -418,7 +418,7 @@ def gen_c09(r):
     lens = rnd_lens(r, 8, 7)
     if r.random() < 0.2:
         lens = lens + [r.randint(8, 12)]
-    dt = r.choice(["b1", "i1", "u1", "i2", "i8", "u4", "f8", "f4", "f2"])
+    dt = r.choice(["b1", "i1", "u1", "i2", "u2", "u2", "i8", "u4", "f8", "f4", "f2"])
     arr = rnd_arr(r, dt, lens, finite_only=True)
     if dt == "f2" and r.random() < 0.6:
         # large float16 values, column-wise nearly constant: the totals leave the float16 range, the means do not
